@@ -199,6 +199,48 @@ theorem repeated_drain_changes_nothing (s : Shared) (parent : Frame) (rest : Lis
     simp [stepThread, finish, kindOf, mRet, markerCond, stDraining, stStopping]
   · simp [stepThread, finish, kindOf, mRet, markerCond, h]
 
+/-- (6, round 4) **A repeated drain is harmless under ANY interleaving.** Once some drain has
+completed (marker bit set, hence closed) and the status is at least `Draining` — facts that no step
+of anybody can undo (`completed_drain_is_stable`) — EVERY single step of a further `drain()`
+(`drain.close`, `drain.status`, `marker.load`), taken at any moment between any other threads'
+steps, leaves the whole shared state untouched except for the log of returned ops; its last step
+logs `Ok`. No hypothesis on the frame's thread, its parent frames or what the other threads do. -/
+theorem repeated_drain_step_changes_nothing (s : Shared) (f : Frame) (rest : List Frame)
+    (hm : s.word.marker = true) (hc : s.word.closed = true) (hst : stDraining ≤ s.status)
+    (hpc : f.pc = .dClose ∨ f.pc = .dStatus ∨ f.pc = .mLoad none) :
+    ∃ s' st', stepThread s (f :: rest) = some (s', st') ∧ s' = { s with rets := s'.rets } ∧
+      (f.pc = .mLoad none → s'.rets = s.rets ++ [⟨.drain, f.id, .ok, f.late, f.seenOk⟩] ∧ st' = rest) ∧
+      (f.pc ≠ .mLoad none → s'.rets = s.rets) := by
+  obtain ⟨pc, id, late, ops, bf, sk⟩ := f
+  simp only at hpc
+  rcases hpc with rfl | rfl | rfl
+  · refine ⟨_, _, rfl, ?_, by simp, by simp⟩
+    obtain ⟨⟨wc, wm, wn⟩, status, queue, rxOpen, rxStopped, sbo, enq, deqd, handled, flushed, dex, mdrop,
+      nextId, rets, taken, dropped⟩ := s
+    simp only at hc; subst hc; rfl
+  · obtain ⟨⟨wc, wm, wn⟩, status, queue, rxOpen, rxStopped, sbo, enq, deqd, handled, flushed, dex, mdrop,
+      nextId, rets, taken, dropped⟩ := s
+    simp only at hst
+    by_cases h : status < stStopping
+    · have : status = stDraining := by simp only [stDraining, stStopping] at *; omega
+      subst this
+      exact ⟨_, _, rfl, by simp [stDraining, stStopping], by simp, by simp [stDraining, stStopping]⟩
+    · refine ⟨_, _, rfl, ?_, by simp, ?_⟩ <;> simp [h]
+  · have hcond : markerCond s.word = false := by simp [markerCond, hm]
+    refine ⟨(finish s ⟨.mLoad none, id, late, ops, bf, sk⟩ .ok rest).1,
+      (finish s ⟨.mLoad none, id, late, ops, bf, sk⟩ .ok rest).2, ?_, ?_, ?_, by simp⟩
+    · simp [stepThread, hcond, mRet]
+    · simp [finish]
+    · intro _; simp [finish, kindOf]
+
+/-- … and the premise is stable: a completed drain stays completed along every continuation. -/
+theorem completed_drain_is_stable (g : G) (sched : List Tid)
+    (hm : g.sh.word.marker = true) (hc : g.sh.word.closed = true) (hst : stDraining ≤ g.sh.status) :
+    (run g sched).sh.word.marker = true ∧ (run g sched).sh.word.closed = true ∧
+    stDraining ≤ (run g sched).sh.status := by
+  have m := mono_run g sched
+  exact ⟨m.marker hm, m.closed hc, Nat.le_trans hst m.status⟩
+
 /-- **A drain that is not interleaved with anything** (API level): admission is closed, the status
 becomes `Draining` unless the actor is already stopping, and — if no send holds a ticket and the
 marker was not emitted before — the marker is emitted (or reported lost if the receiver is gone). -/
@@ -234,6 +276,75 @@ theorem oracle_holds_of_model (progs : List (List Op)) (sched : List Tid)
     (he : endState (run (init progs) sched) = true) :
     (obsOf (run (init progs) sched)).violations = [] :=
   violations_nil (reach_run progs sched) he
+
+/-! ### The end-state clauses of the oracle as standalone theorems (round 4)
+
+`endState`: no op in flight, the channel is empty, nothing is taken, and the receiver — if it left
+its loop — has closed the channel: the actor task ran until it blocked. -/
+
+/-- (5) **A drain ends the actor exactly once with "Drained"** unless a stop / kill / failure
+intervened: in every end state with admission closed and no other exit, the marker was emitted, the
+receiver has taken exactly one "Drained" exit and is gone. (Never two, in any state:
+`drained_exit_at_most_once`.) -/
+theorem drain_ends_the_actor_exactly_once (progs : List (List Op)) (sched : List Tid)
+    (he : endState (run (init progs) sched) = true)
+    (hc : (run (init progs) sched).sh.word.closed = true)
+    (hso : (run (init progs) sched).sh.stoppedByOther = false) :
+    (run (init progs) sched).sh.word.marker = true ∧ (run (init progs) sched).sh.word.count = 0 ∧
+    (run (init progs) sched).sh.drainedExits = 1 ∧ (run (init progs) sched).sh.rxOpen = false := by
+  have h := violations_nil_clauses _ (oracle_holds_of_model progs sched he)
+  simp only [obsOf] at h
+  obtain ⟨-, -, -, -, -, h6, h7, -, h9, -⟩ := h
+  simp_all
+
+/-- (3) **Every send that returned Ok is handled** (its handler was started, not merely dequeued)
+in every end state that was not reached through a stop / kill / failure — with or without a drain;
+and nothing else is handled. -/
+theorem every_ok_send_is_handled_at_the_end (progs : List (List Op)) (sched : List Tid)
+    (he : endState (run (init progs) sched) = true)
+    (hso : (run (init progs) sched).sh.stoppedByOther = false) (i : Nat) :
+    i ∈ (run (init progs) sched).sh.handled ↔
+      ∃ r ∈ (run (init progs) sched).sh.rets, r.kind = .send ∧ r.res = .ok ∧ r.id = i := by
+  have h := violations_nil_clauses _ (oracle_holds_of_model progs sched he)
+  simp only [obsOf, hso, Bool.false_or] at h
+  obtain ⟨-, h2, h3, -⟩ := h
+  rw [List.all_eq_true] at h2 h3
+  constructor
+  · intro hi
+    obtain ⟨r, hr, hp⟩ := List.any_eq_true.mp (h2 i hi)
+    refine ⟨r, hr, ?_⟩
+    simp only [Ret.isOkSend, Ret.isSend, Bool.and_eq_true, beq_iff_eq] at hp
+    obtain ⟨⟨hk, hres⟩, hid⟩ := hp
+    refine ⟨?_, ?_, hid⟩
+    · cases hkk : r.kind <;> simp_all
+    · cases hrr : r.res <;> simp_all
+  · rintro ⟨r, hr, hk, hres, rfl⟩
+    have := h3 r hr
+    simp only [Ret.isOkSend, Ret.isSend, hk, hres, Bool.and_self, Bool.not_true, Bool.false_or,
+      List.contains_eq_mem, decide_eq_true_eq] at this
+    exact this
+
+/-- (1)+(3) at the end of a drained actor: the handled messages are exactly those whose send
+returned Ok, each once, and every send that started after the close was handed back. -/
+theorem drained_actor_handled_exactly_the_accepted (progs : List (List Op)) (sched : List Tid)
+    (he : endState (run (init progs) sched) = true)
+    (hso : (run (init progs) sched).sh.stoppedByOther = false) :
+    (∀ i, (run (init progs) sched).sh.handled.count i ≤ 1) ∧
+    (∀ r ∈ (run (init progs) sched).sh.rets, r.kind = .send → r.late = true → r.res = .sendErr) ∧
+    (∀ r ∈ (run (init progs) sched).sh.rets, r.kind = .send → r.res = .ok →
+      r.id ∈ (run (init progs) sched).sh.handled) := by
+  refine ⟨?_, ?_, ?_⟩
+  · intro i
+    have q := qinv_run _ sched (qinv_init progs)
+    have h1 := (idInv_run i _ sched (idInv_init i progs)).one
+    have hc := congrArg (List.count (Item.msg i)) q.conserve
+    have hh := congrArg (List.count i) q.handled_eq
+    simp only [List.count_append, count_msgIds] at hc hh
+    omega
+  · intro r hr hk hl
+    exact (send_after_close_rejected progs sched r hr hk hl).1
+  · intro r hr hk hres
+    exact (every_ok_send_is_handled_at_the_end progs sched he hso r.id).mpr ⟨r, hr, hk, hres, rfl⟩
 
 /-! ### Source guards (E-SRC): the tables the model depends on, re-extracted from the sources on
 every run -/
@@ -445,8 +556,13 @@ end C07
 #print axioms C07.drain_completes
 #print axioms C07.drained_exit_handled_everything
 #print axioms C07.repeated_drain_changes_nothing
+#print axioms C07.repeated_drain_step_changes_nothing
+#print axioms C07.completed_drain_is_stable
 #print axioms C07.uninterleaved_drain
 #print axioms C07.oracle_holds_of_model
+#print axioms C07.drain_ends_the_actor_exactly_once
+#print axioms C07.every_ok_send_is_handled_at_the_end
+#print axioms C07.drained_actor_handled_exactly_the_accepted
 #print axioms C07.src_status_discriminants
 #print axioms C07.src_admission_word_layout
 #print axioms C07.src_drain_steps
